@@ -6,7 +6,7 @@ CONSTANTS
   Opts <- AllOpts
   MaxSet = 6
   Variant = "as_shipped"
-  Fixed = {}
+  Fixed = {"D1", "D4"}
   Targets = {2, 3, 4, 5, 6}
   Combine = "free"
 INVARIANT Emit
